@@ -185,3 +185,29 @@ class item_dfs_percolation:
     ensures = dict(_ITEM)
     raises = {"ValueError": None}
     props = ["C03"]
+
+
+# ------------------------------------------------------------------------------------------- solving a targeted maze (C02 / C20: the true path of a plotted targeted maze)
+import contracts.serialization as CS  # noqa: E402  (SolvedMaze.__init__)
+
+TARGETED = T.RecT("TargetedLatticeMaze", connection_list=CONN3, start_pos=T.Coord, end_pos=T.Coord, generation_meta=T.Const(None))
+
+
+@contract(F, "SolvedMaze.from_targeted_lattice_maze")
+class from_targeted_lattice_maze:
+    """solving a targeted maze: the result has the same connection structure and endpoints and carries a SHORTEST start-end path along connections
+    (ValueError exactly when the end is not reachable) - the composition of the solver's contract and SolvedMaze.__init__'s"""
+    params = dict(cls=T.ClassT(F, "SolvedMaze"), targeted_lattice_maze=TARGETED, solution=T.Const(None))
+    requires = ["in_grid(targeted_lattice_maze, targeted_lattice_maze.start_pos)", "in_grid(targeted_lattice_maze, targeted_lattice_maze.end_pos)"]
+    lets = dict(m="targeted_lattice_maze", a="targeted_lattice_maze.start_pos", b="targeted_lattice_maze.end_pos")
+    ensures = {
+        "C02.solve.structure": "same_grid(result.connection_list, m.connection_list)",
+        "C02.solve.ends": "result.start_pos[0] == a[0] and result.start_pos[1] == a[1] and result.end_pos[0] == b[0] and result.end_pos[1] == b[1]",
+        "C02.solve.path": "result.solution[0][0] == a[0] and result.solution[0][1] == a[1]"
+        " and result.solution[result.solution.shape[0] - 1][0] == b[0] and result.solution[result.solution.shape[0] - 1][1] == b[1]"
+        " and forall(lambda k: edge(m, result.solution[k], result.solution[k + 1]), (0, result.solution.shape[0] - 1))",
+        "C02.solve.shortest": "result.solution.shape[0] - 1 == dist(m, a, b)",
+    }
+    raises = {"ValueError": "not reach(m, a, b)"}
+    result = CS.SOLVED
+    props = ["C02", "C20"]
